@@ -1,6 +1,9 @@
 #!/bin/bash
-# usage: seed_round_prep.sh <letter> "<extra guidance>"   -- creates /tmp/mut/C??<letter> worktrees at /repo HEAD and prompts
+# usage: seed_round_prep.sh <letter> "<extra guidance>"   -- creates /tmp/mut/C??<letter> worktrees at /repo HEAD and the
+# prompts (/tmp/mut/prompts/C??<letter>.txt) for independent sub-agents. The prompt carries ONLY the property's text, the
+# places earlier changes touched (so that a new one differs) and the deliverable format — nothing from /verif.
 L=$1; G=${2:-}
+mkdir -p /tmp/mut/prompts
 for p in 01 02 03 04 05 06 07 08 09 10 11 12 13 14 15 16 17 18 19 20; do d=/tmp/mut/C${p}$L; [ -d $d ] || git -C /repo worktree add -q --detach $d HEAD; done
 python3 - "$L" "$G" <<'PY'
 import json,os,re,sys
@@ -8,13 +11,10 @@ L,G=sys.argv[1],sys.argv[2]
 props={}
 for l in open('/verif/properties.jsonl'):
     d=json.loads(l); props[d['id']]=d
-tmpl=open('/tmp/mut/prompts/C01a.txt').read()
-head=tmpl.split('PROPERTY C01')[0]
-tail=tmpl.split('TASK:')[1]
 for pid,d in props.items():
     sid=pid+L
     prev=[]
-    for s in 'abcdefghijklmnop':
+    for s in 'abcdefghijklmnopqrstuvwxyz':
         if s>=L: break
         m=f'/verif/seeded/{pid}{s}/patch.diff'
         if os.path.exists(m):
@@ -23,8 +23,33 @@ for pid,d in props.items():
             funcs=re.findall(r'^@@.*@@ (.*)$', t, re.M)
             prev.append(f"{', '.join(os.path.basename(f) for f in files)} ({'; '.join(re.sub(r'^func ','',f.strip())[:40] for f in funcs[:2])})")
     q=d['quantifier']['text']
-    body=(head.replace('C01a',sid)+f"PROPERTY {pid} (it holds for the unmodified code): {d['title']}\n{d['statement']}\nQuantified over: {q}\n\n"
-          +f"{len(prev)} changes were already proposed by others at these places — choose a DIFFERENT function and mechanism than all of them. {G} Already used: "+' | '.join(prev)+"\n\nTASK:"+tail.replace('C01a',sid))
+    body=f"""You are helping evaluate a verification framework for the Go project IrineSistiana/mosproxy (a DNS forwarder/proxy: UDP/TCP/DoT/DoH/DoQ servers and upstreams, its own DNS wire codec, pipelined upstream transports, TTL cache, domain-rule routing).
+
+Your scratch git worktree of the repository is at /tmp/mut/{sid} (already created). Work ONLY inside it; never read or touch /repo or /verif or other directories under /tmp/mut. The sandbox has no network. Before any go command run:
+  export GOFLAGS=-mod=mod GOPROXY=off GOSUMDB=off GOTOOLCHAIN=local GOWORK=off
+
+PROPERTY {pid} (it holds for the unmodified code): {d['title']}
+{d['statement']}
+Quantified over: {q}
+
+{len(prev)} changes were already proposed by others at these places — choose a DIFFERENT function and mechanism than all of them. {G} Already used: {' | '.join(prev)}
+
+TASK: read the non-test code this property depends on, then make ONE small, realistic change to the non-test source (the kind of slip a maintainer could make and a reviewer could miss) that BREAKS this property, while
+  * `go build ./...` still succeeds,
+  * the existing tests still pass:  go test -vet=off -count=1 ./...   (Test_ReuseConnTransport is known to be flaky; ignore it),
+  * the breakage needs something specific to manifest — a particular interleaving, a fault or error at a particular point, a multi-step sequence of operations, an unusual input or configuration, or two cooperating sites that each look fine alone — not something ordinary use would expose at once.
+Do not edit or add tests in the patch, do not touch go.mod/go.sum, do not add build tags or dead code, and do not leave comments that point at the slip.
+
+Then write a DEMONSTRATION: a Go test file (package-internal, so it may use unexported identifiers) that FAILS with your change and PASSES on the unmodified tree, deterministically (no reliance on timing luck: use synchronisation, fake net.Conn values, direct calls to the affected functions...). It must finish in under 60 s.
+
+DELIVERABLES in /tmp/mut/{sid}/_out/ (create it):
+  patch.diff    — `git diff` of your change, applicable with `git apply` from the repository root to the unmodified tree
+  demo_test.go  — the demonstration. Its first lines must be exactly of this form:
+                    // Package directory: <directory of the package the file belongs to, relative to the repository root>
+                    // go test -vet=off -count=1 -run <TestName> ./<that directory>/
+  notes.md      — what the change is, why it breaks {pid}, and what it needs in order to manifest (10-25 lines)
+Verify yourself: with the patch applied the build and the existing tests pass and the demo fails; with the patch reverted the demo passes. Finally leave the worktree clean (`git checkout -- . ` ; only the untracked _out/ directory remains).
+Reply with at most 6 lines: file, function, mechanism, how it manifests."""
     open(f'/tmp/mut/prompts/{sid}.txt','w').write(body)
 print('prepared round',L)
 PY
